@@ -712,6 +712,68 @@ def overlap_case(qast: Dict[str, Any], docs: List[Any], schedule: List[int], str
 
 
 # ---------------------------------------------------------------------------
+# marginal reachability: objects too wide for their n! orderings to be enumerated
+# ---------------------------------------------------------------------------
+def marginal_run(text: str, doc: Any, members: List[str], prefix: Tuple, n_streams: int, seed: int) -> Dict[str, Any]:
+    """``text`` selects the members of one wide object (all of them, each once, in any order
+    RFC 9535 permits -- so all n! orders are permitted).  Under a FAIR generator every member
+    lands on every position with probability 1/n per evaluation; after ``n_streams`` unbiased
+    choice streams a (member, position) pair never seen is reported as unreachable.  With
+    n_streams = 50 n the chance of that for a fair n-way shuffle is below n^2 e^-50."""
+    n = len(members)
+    seen = [[False] * n for _ in range(n)]
+    rng = seeds.stream(seed, "choices")
+    bad = None
+    for _ in range(n_streams):
+        locs, exc, _ident, _trace, _draws = run_stream(text, doc, rng.getrandbits(48), simrandom.UNIFORM_PROFILE, None)
+        if exc is not None:
+            bad = f"raised {exc}"
+            break
+        order = [loc[len(prefix)] for loc in locs if tuple(loc[: len(prefix)]) == prefix and len(loc) == len(prefix) + 1]
+        if sorted(order) != sorted(members):
+            bad = f"selected members {order!r}, not a permutation of {members!r}"
+            break
+        for pos, name in enumerate(order):
+            seen[members.index(name)][pos] = True
+    holes = [(members[i], p) for i in range(n) for p in range(n) if not seen[i][p]]
+    return {"bad": bad, "holes": holes}
+
+
+def marginal_case(seed: int, tier: str) -> Dict[str, Any]:
+    wl = seeds.stream(seed, "workload")
+    n = wl.choice((9, 10, 12, 16, 17, 24))
+    members = [f"k{i}" for i in range(n)]
+    obj = {k: (i if wl.random() < 0.7 else [i]) for i, k in enumerate(members)}
+    shape = wl.random()
+    if shape < 0.5:
+        doc, prefix, text = obj, (), wl.choice(("$[*]", "$.*", "$[?@ != 'zz']", "$[?@ == @]"))
+    elif shape < 0.8:
+        doc, prefix, text = {"o": obj, "p": 1}, ("o",), wl.choice(("$.o[*]", "$.o.*", "$['o'][?@ != 'zz']"))
+    else:
+        doc, prefix, text = [0, obj], (1,), wl.choice(("$[1][*]", "$[1].*"))
+    k = 50 * n
+    out = marginal_run(text, doc, members, prefix, k, seed)
+    st: Counter = Counter()
+    st["marginal_cases"] += 1
+    st["marginal_streams"] += k
+    viols = []
+    payload = {"kind": "marginal", "doc": doc, "query_text": text, "members": members, "prefix": list(prefix), "streams": k, "seed": seed}
+    if out["bad"]:
+        viols.append(_viol("invalid:multiset", f"{text} over an object with {n} members: {out['bad']}", payload, ":wide-object"))
+    elif out["holes"]:
+        m0, p0 = out["holes"][0]
+        viols.append(
+            {
+                "class": "exhaustive:never-at-position",
+                "signature": f"C17:exhaustive:never-at-position:members={n}",
+                "what": f"{text} over an object with {n} members (all {n}! orders are permitted): in {k} unbiased choice streams {len(out['holes'])} (member, position) pairs never occurred, e.g. member {m0!r} never at result position {p0} (a fair shuffle misses a pair with probability < 1e-20)",
+                "payload": payload,
+            }
+        )
+    return {"violations": viols, "stats": st, "events": [["marginal", n, text, len(out["holes"]), out["bad"]]], "sigs": {seeds.digest([n, text])}, "steps": k}
+
+
+# ---------------------------------------------------------------------------
 # run generation
 # ---------------------------------------------------------------------------
 def _gen_random_case(rng) -> Tuple[Dict[str, Any], Any]:
@@ -755,6 +817,7 @@ def _gen_random_case(rng) -> Tuple[Dict[str, Any], Any]:
 
 
 STEER_CASES = {"quick": 60, "thorough": 1200}
+MARGINAL_CASES = {"quick": 40, "thorough": 600}
 
 
 def run_one(seed: int, tier: str, index: int) -> Dict[str, Any]:
@@ -762,6 +825,10 @@ def run_one(seed: int, tier: str, index: int) -> Dict[str, Any]:
     if len(cidx) <= index < len(cidx) + STEER_CASES[tier]:
         res = steer_case(seed, tier)
         return {"digest": seeds.digest(res["events"]), "sigs": sorted(res["sigs"]), "stats": dict(res["stats"]), "steps": res["steps"], "violations": res["violations"], "sample": {"steer": res["events"][0]} if index % 10 == 0 else None}
+    lo = len(cidx) + STEER_CASES[tier]
+    if lo <= index < lo + MARGINAL_CASES[tier]:
+        res = marginal_case(seed, tier)
+        return {"digest": seeds.digest(res["events"]), "sigs": sorted(res["sigs"]), "stats": dict(res["stats"]), "steps": res["steps"], "violations": res["violations"], "sample": {"marginal": res["events"][0]} if index % 10 == 0 else None}
     if index < len(cidx):
         ci = cidx[index]
         q, doc = CORPUS[ci]
@@ -822,6 +889,14 @@ def replay(payload: Dict[str, Any]) -> List[Dict[str, Any]]:
             return [{"class": "exhaustive:unreachable-visit-order", "signature": f"C17:exhaustive:unreachable-visit-order:width={len(doc)}", "what": f"replayed: target visit order unreachable ({out['evals']} evaluations)", "payload": payload}]
         if out["status"] == "error":
             return [_viol("invalid:exception", f"replayed: steering raised {out['exc']}", payload)]
+        return []
+    if payload.get("kind") == "marginal":
+        out = marginal_run(payload["query_text"], payload["doc"], payload["members"], tuple(payload["prefix"]), payload["streams"], payload["seed"])
+        n = len(payload["members"])
+        if out["bad"]:
+            return [_viol("invalid:multiset", f"replayed: {out['bad']}", payload, ":wide-object")]
+        if out["holes"]:
+            return [{"class": "exhaustive:never-at-position", "signature": f"C17:exhaustive:never-at-position:members={n}", "what": f"replayed: {len(out['holes'])} (member, position) pairs never occurred in {payload['streams']} unbiased streams", "payload": payload}]
         return []
     if payload.get("kind") == "overlap":
         s = payload["stream"]
